@@ -843,6 +843,25 @@ class Interp:
         fr.cells = [Cell() for _ in range(nloc + 1)]
         if len(args) != f.nargs:
             raise EngineError('arity mismatch calling %s: %d vs %d' % (f.name, len(args), f.nargs))
+        # zero-sized locals (fn items, capture-less closures, unit) are never assigned in MIR
+        zst = getattr(f, '_zst_locals', None)
+        if zst is None:
+            zst = {}
+            for loc, ty in f.local_types.items():
+                t = ty.strip()
+                m = None
+                if re.match(r'^(for<[^>]*> )?(unsafe )?(extern "[^"]*" )?fn\(', t) and t.endswith('}'):
+                    # fn item type: `for<'a> fn(&'a mut &str) -> R {path::to::function}`
+                    k = t.rfind(' {')
+                    if k > 0:
+                        m = t[k + 2:-1]
+                if m:
+                    zst[loc] = ('fn', m.strip())
+                elif t == '()':
+                    zst[loc] = ('unit', None)
+            f._zst_locals = zst
+        for loc, (kind, path) in zst.items():
+            fr.cells[loc].v = FnItem(path) if kind == 'fn' else UNIT
         for i, a in enumerate(args):
             fr.cells[i + 1].v = a
         bname = 'bb0'
